@@ -113,6 +113,9 @@ class Run:
                 json.dump({'property': self.prop, 'family': c.family, 'role': c.role, 'what': c.text, 'model': c.model,
                            'replay': c.replay, 'status': c.status}, fh, indent=1, default=str)
             viol_lines.append(f'VIOLATION property={self.prop} replay={path}   # {c.family} [{c.role}]: {c.text}')
+        for msg in getattr(self, 'deferred_broken', []):
+            if n_viol: self.inconclusive.append(msg[:600]); print(f'INCONCLUSIVE property={self.prop} ' + msg[:200].replace('\n', ' '))
+            else: broken.append(msg)
         self.write_evidence(n_viol, known_lines, broken)
         for l in known_lines:
             print(l)
